@@ -284,6 +284,12 @@ def run_fast_sir(spec, props=("C01",)):
     fastpath = (tw is None and tau * gamma != 0)
     cls = ("fastpath" if fastpath else "weightedpath") + ("+R0" if R0 else "")
     frac = spec.get("trunc_menu", [0.25, 1.5])
+    at = spec.get("argtype")
+    cast = {None: (lambda x: x), "int": (lambda x: x if x in (INF, -INF) else int(x)), "np": np.float64,
+            "npint": (lambda x: x if x in (INF, -INF) else np.int64(x))}[at]
+    tau_a, gamma_a, tmin_a, tmax_a = cast(tau), cast(gamma), cast(tmin), cast(tmax)
+    if at:
+        cls = cls + "+argtype:" + at
 
     def pol(orc, rate, frame):
         kind, who = _who(frame)
@@ -299,11 +305,11 @@ def run_fast_sir(spec, props=("C01",)):
         return val, None
 
     def call(orc, full_):
-        kw = dict(initial_infecteds=list(I0), tmin=tmin, tmax=tmax, return_full_data=full_,
+        kw = dict(initial_infecteds=list(I0), tmin=tmin_a, tmax=tmax_a, return_full_data=full_,
                   transmission_weight=tw, recovery_weight=rw)
         if R0:
             kw["initial_recovereds"] = list(R0)
-        return EoN.fast_SIR(G, tau, gamma, **kw)
+        return EoN.fast_SIR(G, tau_a, gamma_a, **kw)
 
     before = mon.snap(G)
     try:
@@ -585,4 +591,14 @@ def specs_fast_sir(tier):
                 for tw in (None, "w"):
                     out.append(dict(fn="fast_SIR", n=n, edges=es, I0=list(I0), R0=[], tau=0.3, gamma=0.7,
                                     tw=tw, rw=None, menu=menu[:2], full=True, tmin=tmin, tmax=tmax))
+    # rates and times passed as Python ints / numpy scalars
+    for (n, es) in (gr.NAMED["K3"], gr.NAMED["P3"]):
+        for (tw, rw) in ((None, None), ("w", "rw")):
+            for at, tau, gamma, tmin, tmax in (("int", 1, 2, 0, 2), ("int", 2, 1, -1, 1), ("int", 0, 1, 0, 2), ("int", 1, 0, 0, 2),
+                                               ("npint", 1, 2, 0, 2), ("npint", 1, 0, 1, 3), ("int", 1, 2, 0, "inf"),
+                                               ("np", 0.3, 0.7, 0, 2.5), ("np", 1.1, 0.0, 1.5, 3.5), ("np", 0.0, 0.7, 0, 2), ("np", 0.3, 0.7, 0, "inf")):
+                for I0 in ([0], [1]):
+                    for full in (False, True):
+                        out.append(dict(fn="fast_SIR", n=n, edges=es, I0=I0, R0=[], tau=tau, gamma=gamma, tw=tw, rw=rw, menu=menu[:2], full=full,
+                                        tmin=tmin, tmax=tmax, argtype=at))
     return out
